@@ -22,6 +22,8 @@ class Run:
         it.bool_vars = bool_vars
         it.map_key_field = "transaction_id"      # invariant of outstanding_requests (established by send, kept by handle_stun)
         it.track_content = track_content
+        from absint.models_content import use_registry
+        use_registry(it)
         if max_parts:
             it.max_parts = max_parts
         it.opaque = OPAQUE
